@@ -17,7 +17,15 @@ RUST_TYPES = {"string": "String", "u32": "u32"}
 IDENTS = ["verbose", "name", "file_name", "max_depth", "dry_run", "x", "v", "n", "outputFile", "logLevel", "a_b_c", "level2",
           "input", "jobs", "color_mode", "q", "Z", "keep_going", "retries", "tag", "user_id", "noCache", "r", "w",
           # identifiers need not be ASCII: one CHARACTER (not one byte) makes a short name
-          "ä", "ñ", "größe", "naïve_mode", "λ"]
+          "ä", "ñ", "größe", "naïve_mode", "λ",
+          # keywords, written as raw identifiers (`r#type`) in the source: the names come from the identifier WITHOUT `r#`
+          "type", "in", "move", "match"]
+RAW = {"type", "in", "move", "match"}
+
+
+def src_ident(f):
+    return ("r#" + f["ident"]) if f["ident"] in RAW else f["ident"]
+
 VARIANTS = ["Alpha", "Beta", "GammaRay", "Delta", "E", "ListAll", "DryRun", "Quiet", "X", "ShowHelpText", "Fast", "Slow2"]
 CMD_VARIANTS = ["Build", "RunTests", "Add", "RemoveAll", "Sync", "DoIt"]
 DOCS = ["help text", "Two words", "line one\nline two", "uses -dashes- and 'quotes'", "trailing period."]
@@ -354,13 +362,13 @@ class C17(Property):
         out = ""
         for f in fields:
             out += doc_lines(f["help"], indent) + field_attr(f).replace("    #[", indent + "#[")
-            out += "%s%s%s,\n" % (indent, (f["ident"] + ": ") if named else "", rust_ty(f))
+            out += "%s%s%s,\n" % (indent, (src_ident(f) + ": ") if named else "", rust_ty(f))
         return out
 
     def hand_fields(self, fields, named):
         lets, names = "", []
         for i, f in enumerate(fields):
-            var = f["ident"] if named else "f%d" % i
+            var = src_ident(f) if named else "f%d" % i
             plan = self.plan_of(f)
             if plan is None:
                 raise RuntimeError("the model rejects a field the generator considers valid: %r" % (f,))
